@@ -115,7 +115,7 @@ std::vector<std::string>& split(std::vector<std::string>* into,
 
     tlx::string_view::const_iterator it = str.begin(), last = it;
 
-    for (; it + sep.size() < str.end(); ++it)
+    for (; it + sep.size() <= str.end(); ++it)
     {
         if (std::equal(sep.begin(), sep.begin() + sep.size(), it))
         {
